@@ -1051,6 +1051,10 @@ func (e *Engine) episode(ops []string, res *report.Result) *report.Failure {
 						}
 						if !toxOn[ch[0]] {
 							prop, sig = "C14", "e3:C14:toxicity-zero-still-applied"
+							if strings.Contains(","+e.Props+",", ",C04,") && !strings.Contains(","+e.Props+",", ",C14,") {
+								// (listed with toxicity 0, in effect all the same: also C04's subject)
+								prop, sig = "C04", "e3:C04:listed-toxicity-zero-still-in-effect"
+							}
 						}
 						result = fail(len(ops)-1, "oracle", prop, fmt.Sprintf("by t=%d", due), fmt.Sprintf("link %s: bytes handed in at t=%d forwarded at t=%d (latency listed: %d ms, toxicity on=%v, last toxic change t=%d)", l.name, first, wr.at, attrsOf[ch[0]][0], toxOn[ch[0]], lastCfg[l.dir]),
 							"with a ready receiver a piece was held longer than the listed latency toxic allows (counted from its arrival, or from the toxic's last update if that is later)", sig)
